@@ -356,4 +356,188 @@ theorem set_unbound_overwrites (d : Doc) (p k : Text) (v : Node) (rid : Nat) (nm
     (fun f hf => hnb f (by simp only [docEnv, List.mem_append]; exact Or.inl hf))
     (letBindings_none_of_notBound d name hname hnb) hsib
 
+/-! ## 4. The full claim, where the code deviates from it, and what holds -/
+
+/-- FULL statement (plain single-segment `set` on a binding of the target that holds a reference;
+    well-formed documents): if the name has a defining binding under Nix lexical scoping in what the
+    document has in scope there, exactly that binding is written; if the name is bound nowhere, the
+    binding at the path is overwritten. False of the model, hence of the code: `not_c11_full`. -/
+def c11_full : Prop :=
+  ∀ (d : Doc) (p k : Text) (v : Node) (rid : Nat) (nm : Text) (ne : Bool) (name : Text)
+    (bf af : Payload),
+    d.noTarget = none → splitScopeNpath p = .ok none → formatNPath currentAnchor p = .ok [k] →
+    findAttrpathRoot d.target.setValues k = none →
+    findBinding d.target.setValues k = some (.bind rid nm ne (.ident name) bf af) →
+    envOK (docEnv d) = true → nixName name = name → inheritFree (docEnv d) name = true →
+    idsNodup (docEnv d) = true →
+    (∀ bid, Defines (docEnv d) name bid → setValue p (.one v) d = (.ok (), d.updBind bid v)) ∧
+    (NotBound (docEnv d) name → setValue p (.one v) d = (.ok (), d.updBind rid v))
+
+/-- `{ version = v; v = "2"; }` — NOT recursive -/
+def sibDoc : Doc :=
+  { target := .set 1 [ .bind 2 "version".toList false (.ident "v".toList) [] [],
+                       .bind 3 "v".toList false (.atom "\"2\"".toList) [] [] ] [] true false
+    next := 4 }
+
+/-- `let v = w; w = "1"; in pkgs.mk { version = v; }` — the let is around the call -/
+def topDoc : Doc :=
+  { target := .set 1 [ .bind 2 "version".toList false (.ident "v".toList) [] [] ] [] true false
+    topScope := some [ .bind 3 "v".toList false (.ident "w".toList) [] [],
+                       .bind 4 "w".toList false (.atom "\"1\"".toList) [] [] ]
+    next := 5 }
+
+/-- `let w = "0"; in f (let v = w; in { version = v; })` — the chain leaves the set's own layers -/
+def crossDoc : Doc :=
+  { target := .set 1 [ .bind 2 "version".toList false (.ident "v".toList) [] [] ] [] true false
+    scope := [ .bind 3 "v".toList false (.ident "w".toList) [] [] ]
+    topScope := some [ .bind 4 "w".toList false (.atom "\"0\"".toList) [] [] ]
+    next := 5 }
+
+/-- `rec { v = "0"; a = rec { version = v; v = "1"; }; }` -/
+def nestDoc : Doc :=
+  { target := .set 1 [ .bind 2 "v".toList false (.atom "\"0\"".toList) [] [],
+        .bind 3 "a".toList false (.set 4 [ .bind 5 "version".toList false (.ident "v".toList) [] [],
+             .bind 6 "v".toList false (.atom "\"1\"".toList) [] [] ] [] true true) [] [] ] [] true true
+    next := 7 }
+
+def newV : Node := .atom "\"NEW\"".toList
+
+/-- Counterexample (open finding C11-nonrec-sibling): in the NON-recursive `{ version = v; v = "2"; }`
+    nothing binds `v` at `version` (Nix: undefined variable), yet `set version` rewrites the sibling
+    `v` (the sibling fallback of `_set_value_in_attrset`) instead of overwriting `version`. -/
+theorem cex_nonrec_sibling :
+    NotBound (docEnv sibDoc) "v".toList ∧
+    setValue "version".toList (.one newV) sibDoc = (.ok (), sibDoc.updBind 3 newV) ∧
+    sibDoc.updBind 3 newV ≠ sibDoc.updBind 2 newV := by decide
+
+/-- Counterexample (open findings C11-let-separated-by-wrapper / C11-outermost-let-behind-call: the
+    `let_bindings` fallback): with the let around a call, `let v = w; w = "1"; in pkgs.mk { version = v; }`,
+    the defining binding of `v` is `w` (chain followed), but `set version` rewrites `v`: the
+    fallback takes the first binding of the top expression's recorded layer named `v` and does not
+    follow its reference. -/
+theorem cex_topscope_chain_not_followed :
+    Defines (docEnv topDoc) "v".toList 4 ∧
+    setValue "version".toList (.one newV) topDoc = (.ok (), topDoc.updBind 3 newV) ∧
+    topDoc.updBind 3 newV ≠ topDoc.updBind 4 newV :=
+  ⟨resolveIdent_sound 3 _ _ _ (by decide) (by decide) (by decide), by decide, by decide⟩
+
+/-- Counterexample (same family): `let w = "0"; in f (let v = w; in { version = v; })` — the chain
+    starts in the set's own let layer and ends in the layer around the call; the resolver sees only
+    the former, finds `w` unbound, and `version` itself is overwritten (the reference is lost). -/
+theorem cex_chain_crosses_wrapper :
+    Defines (docEnv crossDoc) "v".toList 4 ∧
+    setValue "version".toList (.one newV) crossDoc = (.ok (), crossDoc.updBind 2 newV) ∧
+    crossDoc.updBind 2 newV ≠ crossDoc.updBind 4 newV :=
+  ⟨resolveIdent_sound 3 _ _ _ (by decide) (by decide) (by decide), by decide, by decide⟩
+
+/-- SPEC: the environment of the bindings of a set `parent` that is the value of a binding of the
+    target (path `a.k`): the parent's own frame when it is `rec`, then the target's environment. -/
+def nestedEnv (d : Doc) (parent : Node) : List (List Node) :=
+  (if parent.setRecursive then [parent.setValues] else []) ++ chainEnv d d.target true
+
+/-- Counterexample (nested path; not among the recorded findings): in
+    `rec { v = "0"; a = rec { version = v; v = "1"; }; }` the reference `a.version = v` designates
+    the inner `v = "1"` (the inner set is `rec`), but `set a.version` rewrites the OUTER `v`:
+    `_assign_through_identifier` builds the scopes of the *target* set, never of the parent set
+    the path leads into. -/
+theorem cex_nested_rec_parent :
+    Defines (nestedEnv nestDoc (.set 4 [ .bind 5 "version".toList false (.ident "v".toList) [] [],
+             .bind 6 "v".toList false (.atom "\"1\"".toList) [] [] ] [] true true)) "v".toList 6 ∧
+    setValue "a.version".toList (.one newV) nestDoc = (.ok (), nestDoc.updBind 2 newV) ∧
+    nestDoc.updBind 2 newV ≠ nestDoc.updBind 6 newV :=
+  ⟨resolveIdent_sound 3 _ _ _ (by decide) (by decide) (by decide), by decide, by decide⟩
+
+/-- The full claim is false of the model (both clauses fail). -/
+theorem not_c11_full : ¬ c11_full := by
+  intro h
+  have h1 := (h sibDoc "version".toList "version".toList newV 2 "version".toList false "v".toList [] []
+    (by decide) (by decide) (by decide) (by decide) (by decide) (by decide) (by decide) (by decide)
+    (by decide)).2 cex_nonrec_sibling.1
+  rw [cex_nonrec_sibling.2.1] at h1
+  exact cex_nonrec_sibling.2.2 (by simpa using h1)
+
+/-- … and its first clause alone is false as well. -/
+theorem not_c11_full_defining : ¬ (∀ (d : Doc) (p k : Text) (v : Node) (rid : Nat) (nm : Text)
+    (ne : Bool) (name : Text) (bf af : Payload),
+    d.noTarget = none → splitScopeNpath p = .ok none → formatNPath currentAnchor p = .ok [k] →
+    findAttrpathRoot d.target.setValues k = none →
+    findBinding d.target.setValues k = some (.bind rid nm ne (.ident name) bf af) →
+    envOK (docEnv d) = true → nixName name = name → inheritFree (docEnv d) name = true →
+    idsNodup (docEnv d) = true →
+    ∀ bid, Defines (docEnv d) name bid → setValue p (.one v) d = (.ok (), d.updBind bid v)) := by
+  intro h
+  have h1 := h topDoc "version".toList "version".toList newV 2 "version".toList false "v".toList [] []
+    (by decide) (by decide) (by decide) (by decide) (by decide) (by decide) (by decide) (by decide)
+    (by decide) 4 cex_topscope_chain_not_followed.1
+  rw [cex_topscope_chain_not_followed.2.1] at h1
+  exact cex_topscope_chain_not_followed.2.2 (by simpa using h1)
+
+theorem inheritFree_append_left {a b : List (List Node)} {name : Text}
+    (h : inheritFree (a ++ b) name = true) : inheritFree a name = true := by
+  simp only [inheritFree, inheritClear, List.all_append, Bool.and_eq_true, List.all_eq_true] at h ⊢
+  refine ⟨h.1.1, fun f hf n hn => ?_⟩
+  have := h.2.1 f hf n hn
+  cases n with
+  | bind i nm ne v bf af =>
+    cases v with
+    | ident n' =>
+      simp only [Bool.and_eq_true, List.all_eq_true] at this ⊢
+      exact this.1
+    | _ => rfl
+  | _ => rfl
+
+theorem idsNodup_append_left {a b : List (List Node)} (h : idsNodup (a ++ b) = true) :
+    idsNodup a = true := by
+  rw [idsNodup_iff] at h ⊢
+  simp only [envIds, List.flatten_append, List.filterMap_append] at h
+  exact (List.nodup_append.1 h).1
+
+/-- PARTIAL (everything but the deviations above). For a plain single-segment `set` on a binding of
+    the target that holds a reference, in a well-formed document:
+    * when the target does not sit behind a wrapper that carries a let (`topScope = none` — the
+      decidable condition that excludes `cex_topscope_chain_not_followed` /
+      `cex_chain_crosses_wrapper`; `set_through_reference` is the sharper form: the chain resolves
+      inside the set's own layers), the defining binding under Nix lexical scoping — chains followed
+      to their end through any number of let layers and the `rec` scope, with any shadowing — is the
+      one object written;
+    * when the name is bound nowhere and (excluding `cex_nonrec_sibling`) no sibling carries it,
+      the binding at the path is overwritten. -/
+theorem c11_partial (d : Doc) (p k : Text) (v : Node) (rid : Nat) (nm : Text) (ne : Bool)
+    (name : Text) (bf af : Payload)
+    (hnt : d.noTarget = none) (hsp : splitScopeNpath p = .ok none)
+    (hf : formatNPath currentAnchor p = .ok [k])
+    (hr : findAttrpathRoot d.target.setValues k = none)
+    (hb : findBinding d.target.setValues k = some (.bind rid nm ne (.ident name) bf af))
+    (hok : envOK (docEnv d) = true) (hname : nixName name = name)
+    (hinh : inheritFree (docEnv d) name = true) (hids : idsNodup (docEnv d) = true) :
+    (d.topScope = none → ∀ bid, Defines (docEnv d) name bid →
+      setValue p (.one v) d = (.ok (), d.updBind bid v)) ∧
+    (findBinding d.target.setValues name = none → NotBound (docEnv d) name →
+      setValue p (.one v) d = (.ok (), d.updBind rid v)) := by
+  constructor
+  · intro ht bid hdef
+    have he : docEnv d = chainEnv d d.target true := by simp [docEnv, ht]
+    rw [he] at hok hinh hids hdef
+    exact (set_through_reference d p k v rid nm ne name bf af bid hnt hsp hf hr hb hok hname hinh
+      hids hdef).1
+  · intro hsib hnb
+    exact set_unbound_overwrites d p k v rid nm ne name bf af hnt hsp hf hr hb hok hname hnb hsib
+
+/-- The sharper form of the first clause, whatever `topScope` is: a chain that resolves inside the
+    set's own let layers / `rec` scope is also the document-level defining binding (`defines_extend`)
+    and is the one object written. -/
+theorem c11_partial_through_chain (d : Doc) (p k : Text) (v : Node) (rid : Nat) (nm : Text) (ne : Bool)
+    (name : Text) (bf af : Payload) (bid : Nat)
+    (hnt : d.noTarget = none) (hsp : splitScopeNpath p = .ok none)
+    (hf : formatNPath currentAnchor p = .ok [k])
+    (hr : findAttrpathRoot d.target.setValues k = none)
+    (hb : findBinding d.target.setValues k = some (.bind rid nm ne (.ident name) bf af))
+    (hok : envOK (docEnv d) = true) (hname : nixName name = name)
+    (hinh : inheritFree (docEnv d) name = true) (hids : idsNodup (docEnv d) = true)
+    (hdef : Defines (chainEnv d d.target true) name bid) :
+    Defines (docEnv d) name bid ∧ setValue p (.one v) d = (.ok (), d.updBind bid v) :=
+  ⟨defines_extend _ _ _ _ hdef,
+   (set_through_reference d p k v rid nm ne name bf af bid hnt hsp hf hr hb (envOK_append_left hok)
+     hname (inheritFree_append_left hinh) (idsNodup_append_left hids) hdef).1⟩
+
 end Nima.C11
